@@ -18,7 +18,14 @@ Positions == {p \in 0..(IF Thorough THEN 260 ELSE 200) : p % Step = 0}
 Muts(p) == [i \in 1..(Cardinality(Vals) * 2 + 2) |->
               LET vs == SetToSeq(Vals) n == Len(vs)
               IN IF i <= n THEN <<p, vs[i], "set">> ELSE IF i <= 2 * n THEN <<p, vs[i - n], "xor">> ELSE IF i = 2 * n + 1 THEN <<p, 0, "cut">> ELSE <<p, 0, "dup">>]
-Cases == {[op |-> "loadmut", t |-> b, muts |-> Muts(p)] : b \in Bases, p \in Positions}
+\* structural mutations: the j-th object record replaced by a back reference to the i-th (typed slots receive objects
+\* of another class)
+Typed == Bases \cup {B("pow", x, B("add", TInt(2), y)), B("contains", x, T("interval", <<TInt(0), TInt(1)>>, "", 0, 0)), B("Eq", TInt(7), U("not", B("Lt", x, y))),
+                     B("mul", TRat(2, 3), B("pow", x, y)), TComplex(TRat(1, 2), TInt(3)), TOp("union", <<T("interval", <<TInt(0), TInt(1)>>, "", 0, 0), TOp("finiteset", <<TInt(5), x>>)>>),
+                     TOp("or", <<B("Lt", x, y), U("not", B("Le", y, x))>>), TOp("complement", <<TOp("Reals", <<>>), TOp("finiteset", <<x>>)>>), B("add", B("mul", TInt(2), x), TRat(1, 2)),
+                     TOp("piecewise", <<x, B("Lt", x, TInt(0)), y, T("True", <<>>, "", 0, 0)>>), B("mul", TI, x), B("add", TDbl(1, 3, -1), x)}
+BackRefs == [k \in 1..45 |-> LET ps == SetToSeq({<<i, j>> \in (0..8) \X (1..9) : i < j}) IN <<ps[k][1], ps[k][2], "backref">>]
+Cases == {[op |-> "loadmut", t |-> b, muts |-> Muts(p)] : b \in Bases, p \in Positions} \cup {[op |-> "loadmut", t |-> b, muts |-> BackRefs] : b \in Typed}
 ASSUME PrintT(<<"cases", Cardinality(Cases)>>)
 ASSUME ndJsonSerialize(IOEnv.OUT, SetToSeq(Cases))
 VARIABLE dummy
